@@ -114,6 +114,10 @@ pub trait ExSeek {
 pub assume_specification<'a, T>[<&'a mut [T] as IntoIterator>::into_iter](s: &'a mut [T]) -> (r: std::slice::IterMut<'a, T>)
     ensures call_ensures(<[T]>::iter_mut, (s,), r);
 
+// A6: std functions used by the library that vstd does not specify
+pub assume_specification<T: Copy>[Option::<&T>::copied](o: Option<&T>) -> (r: Option<T>)
+    ensures o is None ==> r is None, o is Some ==> r == Some(*o->Some_0);
+
 // A destination that is both Write and Seek has ONE cursor, ONE content, one failure counter.
 pub uninterp spec fn ws_linked<T: Write + Seek>(t: &T) -> bool;
 pub broadcast axiom fn ax_ws_pos<T: Write + Seek>(t: &T)
